@@ -45,8 +45,12 @@ class Oracle:
     def observe(self, op, reply):
         f = op.split()
         name, a = f[0], f[1:]
+        if name == "r.put" and not reply.startswith("dead"):
+            return None      # data is only written to give previous owners something to hold; a failed write is no concern here
         if reply.startswith("err:") or reply.startswith("other:") or reply in ("bad-op", "no-cluster", "down", "neterr", "hang", "dead", "nocoord"):
             return "unexpected reply %r to %s" % (reply[:160], op[:100])
+        if name == "r.put":
+            return None      # data is only written to give previous owners something to hold; a failed write is no concern here
         if name == "c.new":
             self.cfg = dict(kv.split("=") for kv in a if "=" in kv)
             self.alive, self.births = {}, 0
